@@ -14,7 +14,11 @@
  *       (it is not exact in the real code: janet_symcache_put re-uses a tombstone handed out by findmem without
  *       decrementing cache_deleted; the counter is only reset by a resize - harmless, the table just resizes earlier)
  *   I5  cache_count + cache_deleted <= cap/2 + 1   (janet_symcache_put resizes before it would exceed that;
- *       janet_symbol_deinit and findmem keep the sum) - so there is always a NULL slot and every probe ends
+ *       janet_symbol_deinit and findmem keep the sum) - so for cap >= 4 there is always a NULL slot, every probe ends and
+ *       the fatal "symcache failed to get memory" exit of findmem is unreachable (asserted: exit/abort are obligations here).
+ *       Not covered (janet_cache_resize is outside these units): a resize that happens while cache_count == 0 picks
+ *       janet_tablen(1) == 2, and at capacity 2 I5 no longer implies a NULL slot.  Unreachable from the janet binary (the
+ *       core environment keeps thousands of symbols live); an embedder without core environment could get there.
  *
  * The string hash (janet_string_calchash, util.c) is replaced by its contract: an ARBITRARY function of the bytes
  * (symbolic table g3_h[], so all home-slot / full-hash collision patterns are covered).  janet_string_equalconst is the
